@@ -62,6 +62,20 @@ func Ops() []Op {
 	}
 	ops = append(ops, Op{"Round15", 1121, func(d []byte, _ []bool) []float64 { return flat(detect.Round15(d)...) }})
 	ops = append(ops, Op{"Round12", 128, func(d []byte, _ []bool) []float64 { return flat(detect.Round12(d)...) }})
+	// the exported section-6 helpers (the uniformity statistic goes through the shared incomplete gamma code)
+	ops = append(ops, Op{"ThresholdQ", 16, func(d []byte, _ []bool) []float64 {
+		qs := make([]float64, 20)
+		for i := range qs {
+			qs[i] = float64(d[i%len(d)]) / 256
+		}
+		return []float64{detect.ThresholdQ(qs), float64(detect.Threshold(len(d)))}
+	}})
+	ops = append(ops, Op{"Igamc(1,.)", 1, func(d []byte, _ []bool) []float64 {
+		return []float64{r.Igamc(1, 0.5+float64(d[0])/64), r.Igamc(3, 2.5)}
+	}})
+	ops = append(ops, Op{"Igamc(7.5,.)", 1, func(d []byte, _ []bool) []float64 {
+		return []float64{r.Igamc(7.5, 6+float64(d[0])/64), r.Igamc(127.5, 120)}
+	}})
 	for _, c := range calls.All() {
 		c := c
 		if strings.Contains(c.Name, "m=5000") {
@@ -136,6 +150,51 @@ func same(a, b []float64) bool {
 		}
 	}
 	return true
+}
+
+// NRegistryOps is the number of registry-level operations at the head of Ops() (15 runners, two rounds, three section-6 helpers).
+const NRegistryOps = 20
+
+// PairsOf runs the concurrent exploration for all ordered pairs of the named operations (used by C12 for the
+// uniformity statistic). It returns nil if the instrumented build fails.
+func PairsOf(ctx *common.Ctx, names []string) (*e1.Merged, *e1.BuildInfo, error) {
+	specs := []e1.PkgSpec{{Dir: "/repo", Touch: true}, {Dir: "/repo/fft", Touch: true}, {Dir: "/repo/detect", Touch: true}}
+	pre, err := e1.Discover(ctx, specs)
+	if err != nil {
+		return nil, nil, err
+	}
+	pk := map[string]string{"/repo": "randomness", "/repo/fft": "fft", "/repo/detect": "detect"}
+	for i := range specs {
+		specs[i].Extra = map[string]string{"verif_dump.go": dumpFile(pk[specs[i].Dir], pre[specs[i].Dir])}
+	}
+	info, err := e1.Build(ctx, "purity", specs, "./cmd/runner", false, "verif_dump")
+	if err != nil {
+		return nil, nil, err
+	}
+	ops := Ops()
+	var idx []int
+	for _, n := range names {
+		for i, o := range ops {
+			if o.Name == n {
+				idx = append(idx, i)
+			}
+		}
+	}
+	var pairs [][2]int
+	for _, a := range idx {
+		for _, b := range idx {
+			pairs = append(pairs, [2]int{a, b})
+		}
+	}
+	var tasks []e1.Task
+	for _, shared := range []bool{true, false} {
+		pp, _ := json.Marshal(Params{Mode: "conc", Pairs: pairs, Third: -1, Shared: shared, MaxTouches: 12})
+		tasks = append(tasks, e1.Task{Check: "C18", Name: fmt.Sprintf("conc/shared=%v", shared), Params: pp, Bound: 2, NShards: 1})
+	}
+	third := idx[len(idx)-1]
+	pp, _ := json.Marshal(Params{Mode: "conc", Pairs: pairs, Third: third, Shared: false, MaxTouches: 6})
+	tasks = append(tasks, e1.Task{Check: "C18", Name: "conc3", Params: pp, Bound: 2, NShards: 1})
+	return e1.RunTasks(ctx, info.Bin, tasks, 0, false), info, nil
 }
 
 // DumpState is set by the instrumented build (deep dump of every package-level variable).
@@ -528,14 +587,14 @@ func Run(ctx *common.Ctx) int {
 	p, _ := json.Marshal(Params{Mode: "seq", Third: -1})
 	tasks = append(tasks, e1.Task{Check: "C18", Name: "c18/seq", Params: p, NShards: 1})
 	// all ordered pairs of the 17 registry-level operations (and, in thorough, of every entry point), shared and distinct inputs
-	nops := 17
+	nops := NRegistryOps
 	if !quick {
 		nops = len(ops)
 	}
 	var pairs [][2]int
 	for a := 0; a < nops; a++ {
 		for b := 0; b < nops; b++ {
-			if a >= 17 && b >= 17 && (a+b)%3 != 0 {
+			if a >= NRegistryOps && b >= NRegistryOps && (a+b)%3 != 0 {
 				continue
 			}
 			pairs = append(pairs, [2]int{a, b})
@@ -642,9 +701,9 @@ func racePass(ctx *common.Ctx, bin string) (bool, int) {
 	total := 0
 	var mu sync.Mutex
 	// one fresh process per operation (cold package state), plus the 64-goroutine mix
-	common.ParFor(18, func(k int) {
+	common.ParFor(NRegistryOps+1, func(k int) {
 		op := k
-		if k == 17 {
+		if k == NRegistryOps {
 			op = -1
 		}
 		ok, n := fast.RacePass(ctx, bin, []string{"C18-race", "--tier", ctx.Tier, "--work", ctx.Work, "--gomaxprocs", fmt.Sprint(op)}, fmt.Sprintf("race/op%d", op))
@@ -662,7 +721,7 @@ func racePass(ctx *common.Ctx, bin string) (bool, int) {
 // 64-goroutine mix.
 func Race(ctx *common.Ctx, cold int) int {
 	runtime.GOMAXPROCS(16)
-	ops := Ops()[:17]
+	ops := Ops()[:NRegistryOps]
 	inputs := append(Inputs(1), enum.FillerBytes(2500, 77), enum.FillerBytes(4200, 78))
 	bitsIn := make([][]bool, len(inputs))
 	for i := range inputs {
